@@ -15,6 +15,11 @@
 
 mod barriers;
 pub use barriers::BarrierSelector;
+/// Hooks for the external verification harness.
+#[cfg(feature = "mmtk_verif")]
+pub mod verif_hooks {
+    pub use super::barriers::{Barrier, BarrierSemantics, ObjectBarrier};
+}
 
 mod gc_work;
 
